@@ -21,6 +21,7 @@ REQUIRED_MONITORS = [
     "codon.synonymous-partition",
     "codon.stop-set",
     "codon.start-sets",
+    "codon.identity-stable",
     "alphabet.complement-iupac",
     "alphabet.complement-involution",
     "alphabet.non-nucleotide-refused",
